@@ -23,7 +23,8 @@ PROP = Prop(
              Bounded('C18.bounded.keyspace', 'replay/omen.py', args=['--fn', 'KEYSPACE'],
                      bound='rulesets trained by the real trainer functions from small lists: a list dominated by passwords as long as the n-gram, a list dominated by one length '
                            '(length level 0), random lists; n-gram 2..5; max_keyspace = default and cut-offs 1, 2, 4; levels 1..6 (1..4 for n-gram < 4); one small-alphabet list (n-gram 3) with levels 1..11, i.e. including the '
-                           'levels from 10 on at which strings start with an n-gram that never starts a training password',
+                           'levels from 10 on at which strings start with an n-gram that never starts a training password; one single-length list (n-gram 2, length level 0, initial level 0, two transitions of level 9) with every level 1..18, '
+                           'i.e. the remaining level reaches max_level inside _rec_calc_keyspace',
                      clause='every level listed in omen_keyspace.txt has as keyspace the number of distinct strings the real MarkovCracker emits at that level from the files written; '
                             'pcfg_omen_prob.txt holds (passwords at that level / N) / that number')],
     assumptions=[
